@@ -323,7 +323,9 @@ Fixpoint perms {A} (l : list A) : list (list A) :=
 (* the leftover temp name (if any) tells which output was being written *)
 Definition kill_outs (c : kcase) : list output :=
   map (fun x =>
-    let left := find (fun a => tmp_shape {| o_name := fst x; o_tmp := af_name a; o_chunks := [] |}) (q_after c) in
+    (* a file of that shape that was there before the run is not this run's temporary *)
+    let left := find (fun a => negb (mem (af_name a) (map fi_name (q_before c)))
+                               && tmp_shape {| o_name := fst x; o_tmp := af_name a; o_chunks := [] |}) (q_after c) in
     {| o_name := fst x;
        o_tmp := match left with Some a => af_name a | None => "." ++ fst x ++ "_0" end;
        o_chunks := [snd x] |}) (q_new c).
